@@ -70,6 +70,11 @@ def build_program(sig, params, given, mode, extra):
         xf = {pt.TxnField.fee: pt.Int(0)}
     elif extra == "note":
         xf = {pt.TxnField.note: pt.Bytes("n"), pt.TxnField.fee: pt.Int(2000)}
+    elif extra == "accounts":
+        # array fields given as extra fields are appended BEHIND the entries the call itself adds
+        xf = {pt.TxnField.accounts: [pt.Bytes(ADDR[2])]}
+    elif extra == "refs":
+        xf = {pt.TxnField.assets: [pt.Int(42)], pt.TxnField.applications: [pt.Int(43)], pt.TxnField.accounts: [pt.Bytes(ADDR[0])]}
     call = pt.InnerTxnBuilder.ExecuteMethodCall(app_id=pt.Int(9), method_signature=sig, args=args, extra_fields=xf)
     return pt.Seq(*steps, call, pt.Int(1))
 
@@ -158,8 +163,10 @@ def check_case(case, out, versions):
     for ver in versions:
         for variant in (0, 1):
             given = given_values(params, variant)
-            for mode in ("abi", "expr"):
-                extra = ["none", "fee", "note"][(variant + len(params)) % 3]
+            all_extras = ["none", "fee", "note", "accounts", "refs"]
+            has_ref = any(c09.is_ref(k) for k in params)
+            for mode, extra in [(m, x) for m in ("abi", "expr")
+                                for x in (all_extras if has_ref and m == "abi" else [all_extras[(variant + len(params)) % 5]])]:
                 try:
                     text = pt.compileTeal(build_program(sig, params, given, mode, extra), pt.Mode.Application, version=ver)
                 except drive.PT_ERRORS as e:
@@ -199,6 +206,11 @@ def check_case(case, out, versions):
                             call = groups[0][-1]
                             if (extra == "fee" and call.get("Fee") != 0) or (extra == "note" and (call.get("Note") != b"n" or call.get("Fee") != 2000)):
                                 why = "extra fields not set on the application call: %r" % ({k: call.get(k) for k in ("Fee", "Note")},)
+                            elif extra == "accounts" and (call.get("Accounts") or [None])[-1] != ADDR[2]:
+                                why = "extra account is not the last foreign account: %r" % (call.get("Accounts"),)
+                            elif extra == "refs" and ((call.get("Assets") or [None])[-1] != 42 or (call.get("Applications") or [None])[-1] != 43
+                                                      or (call.get("Accounts") or [None])[-1] != ADDR[0]):
+                                why = "extra foreign references are not the last entries: assets %r apps %r" % (call.get("Assets"), call.get("Applications"))
                 if why:
                     out["violations"].append({
                         "driver": "call", "size": len(params), "title": "%s v%d variant %d %s: %s" % (sig, ver, variant, mode, why),
